@@ -94,6 +94,40 @@ def run(ctx):
                 res["failures"].append({"property": prop, "type": t, "literal": l, "scope": scope[2:],
                                         "what": "constant %s %s is %s at file level but %s when declared in an interface (%s)" % (
                                             t, l, "accepted" if a else "rejected", "accepted" if b else "rejected", scope[2:])})
+    # the same literals declared in a file that is only reached through include (directly and through
+    # a second include), inherited by an interface of the compiled file: the whole command-line
+    # front end must give the verdict the literal gets at file level
+    incd = os.path.join(work, "inc")
+    lines = []
+    for i, (t, l) in enumerate(lits):
+        d = os.path.join(incd, "%d" % i)
+        os.makedirs(d, exist_ok=True)
+        open(os.path.join(d, "base.idl"), "w").write("const %s ZT = %s;\ninterface IB {\n  const %s ZC = %s;\n  method f();\n};\n" % (t, l, t, l))
+        if i % 3 == 0:
+            open(os.path.join(d, "mid.idl"), "w").write('include "base.idl"\ninterface IM : IB {\n  method h();\n};\n')
+            open(os.path.join(d, "main.idl"), "w").write('include "mid.idl"\ninterface IK : IM {\n  method g();\n};\n')
+        else:
+            open(os.path.join(d, "main.idl"), "w").write('include "base.idl"\ninterface IK : IB {\n  method g();\n};\n')
+        lines.append("%d\tcli\t-\t%s\t\n" % (i, os.path.join(d, "main.idl")))
+    cf = os.path.join(work, "inc_cases.txt")
+    open(cf, "w").write("".join(lines))
+    rc3, out3, err3 = vlib.run([ctx["harness"], "front", cf], timeout=600)
+    v3 = {}
+    cur = None
+    for ln in out3.split("\n"):
+        if ln.startswith("@case "):
+            cur = int(ln.split()[1])
+        elif ln.startswith("@result ") and cur is not None:
+            v3[cur] = ln.split()[1] == "ok"
+    if len(v3) != len(lits):
+        res["corr_broken"].append({"kind": "harness", "detail": "front on included constants: %d answers for %d literals" % (len(v3), len(lits))})
+    else:
+        for i, ((t, l), a) in enumerate(zip(lits, verdicts)):
+            if a != v3[i]:
+                res["failures"].append({"property": prop, "type": t, "literal": l, "scope": "included",
+                                        "files": {n: open(os.path.join(incd, "%d" % i, n)).read() for n in sorted(os.listdir(os.path.join(incd, "%d" % i)))},
+                                        "what": "constant %s %s is %s at file level but %s when it is declared in an included file whose interface the compiled file inherits" % (
+                                            t, l, "accepted" if a else "rejected", "accepted" if v3[i] else "rejected")})
     # ---- L0: model / Spec vs implementation, evaluated in Coq
     defs = []
     B = 150
